@@ -48,6 +48,9 @@ type CConn struct {
 	// (an asynchronous answer, a server-initiated request) is stuck in this connection's
 	// transport because the peer does not read. The connection must be closed all the same.
 	StuckWrite bool `json:"stuck_write,omitempty"`
+	// CloseNotify: the handler of this connection's first request asks for the CloseNotify
+	// channel (from then on the library keeps a read outstanding while handlers run).
+	CloseNotify bool `json:"close_notify,omitempty"`
 }
 
 type Step struct {
@@ -296,6 +299,11 @@ func runCase(c Case) *ev.Failure {
 			connMu.Lock()
 			connOf[ci] = conn
 			connMu.Unlock()
+			if s, ok := u32(m, codeSeq); ok && s == 1 && ci >= 0 && ci < nconn && c.Conns[ci].CloseNotify {
+				if cn, ok := conn.(diam.CloseNotifier); ok {
+					_ = cn.CloseNotify()
+				}
+			}
 			a.AddAVP(diam.NewAVP(codeConn, 0x40, 0, datatype.Unsigned32(ci)))
 		}
 		if s, ok := u32(m, codeSeq); ok {
@@ -556,6 +564,7 @@ func genCase(t *rapid.T) Case {
 	for i := 0; i < nc; i++ {
 		cc := CConn{N: rapid.IntRange(1, 6).Draw(t, "n")}
 		cc.Fault = rapid.SampledFrom([]string{"", "panic", "garbage", "", "eof", "reset", ""}).Draw(t, "fault")
+		cc.CloseNotify = rapid.IntRange(0, 2).Draw(t, "close-notify") == 0
 		if cc.Fault != "" {
 			cc.At = rapid.IntRange(0, cc.N).Draw(t, "at")
 			switch cc.Fault {
@@ -634,6 +643,9 @@ func classify(c Case) (bool, []string) {
 		if (cc.Fault == "eof" || cc.Fault == "reset") && cc.Cut > 0 {
 			add("disconnect-mid-message")
 		}
+		if cc.CloseNotify && cc.Fault != "" && cc.At >= 2 {
+			add("fault-with-closenotify-active:" + cc.Fault)
+		}
 		if cc.StuckWrite && (cc.Fault == "panic" || cc.Fault == "garbage") && cc.At >= 1 {
 			add("fault-while-a-write-is-stuck:" + cc.Fault)
 		}
@@ -682,7 +694,7 @@ func classify(c Case) (bool, []string) {
 
 var prop = ev.Register(&ev.Prop[Case]{
 	ID: "C15", Name: "isolation",
-	Rule: "Server.Serve on a memnet.Listener; 2..5 connections with 1..6 numbered requests; faults: a marked request whose handler panics, undecodable bytes (5 variants), either of them optionally while a server-side Write of another goroutine is stuck in that connection's transport, EOF / reset at a message boundary or inside a message, at position 0..N of the connection's sequence; 0..3 temporary accept errors; a scripted global interleaving of open / feed actions, each optionally awaited (answer received / faulty transport closed) before the script continues; at the end every healthy connection must hold the answer to each of its requests, every faulty transport must be closed, undecodable input must have been offered to the ErrorReporter with that connection, a connection opened afterwards must be served and Serve must not have returned; non-trivial = a fault (or accept error) is scripted between two requests of a healthy connection",
+	Rule: "Server.Serve on a memnet.Listener; 2..5 connections with 1..6 numbered requests (1 in 3 connections: the first handler requests CloseNotify); faults: a marked request whose handler panics, undecodable bytes (5 variants), either of them optionally while a server-side Write of another goroutine is stuck in that connection's transport, EOF / reset at a message boundary or inside a message, at position 0..N of the connection's sequence; 0..3 temporary accept errors; a scripted global interleaving of open / feed actions, each optionally awaited (answer received / faulty transport closed) before the script continues; at the end every healthy connection must hold the answer to each of its requests, every faulty transport must be closed, undecodable input must have been offered to the ErrorReporter with that connection, a connection opened afterwards must be served and Serve must not have returned; non-trivial = a fault (or accept error) is scripted between two requests of a healthy connection",
 	Gen:  genCase, Run: runCase, Classify: classify, Attempts: 5,
 })
 
